@@ -31,6 +31,46 @@ def opts_expr(e, opt):
     return bool(d) and d.split(".")[-1] == opt and "options" in d.split(".")[:-1]
 
 
+def recursive_options(ctx, rule):
+    """Every recursive call of a builder function (and every bare reference to it) keeps the `options` argument."""
+    m = ctx.model
+    n_rec = 0
+    for bq in BUILDERS:
+        f = m.functions.get(bq)
+        if f is None:
+            continue
+        params = func_params(f.node)
+        if "options" not in params:
+            continue
+        for c in walk_no_nested(f.node):
+            if not isinstance(c, ast.Call):
+                continue
+            r = m.resolve_expr(f.module, c.func)
+            callee = r[0][1] if r and r[0] and r[0][0] == "func" else None
+            if callee == bq:
+                n_rec += 1
+                has = any(k.arg == "options" for k in c.keywords) or any(isinstance(a, ast.Name) and a.id == "options" for a in c.args)
+                if has:
+                    ctx.proved(rule, f.file, f.short, c, f"recursive {callee.rsplit('.', 1)[-1]} keeps options",
+                               "the options object is passed to the recursive build call")
+                else:
+                    ctx.violation(rule, f.file, f.short, c, f"recursive {callee.rsplit('.', 1)[-1]} keeps options",
+                                  f"`{norm(c, 60)}` builds a sub-tree without passing `options`: below this level the "
+                                  f"default options apply (key edits and list edits are allowed again)")
+        for nme in walk_no_nested(f.node):
+            if isinstance(nme, ast.Name) and isinstance(nme.ctx, ast.Load) and nme.id == f.node.name:
+                pr = parent(nme)
+                if isinstance(pr, ast.Call) and pr.func is nme:
+                    continue
+                r = m.resolve_expr(f.module, nme)
+                if r and r[0] and r[0][0] == "func" and r[0][1] == bq:
+                    n_rec += 1
+                    ctx.violation(rule, f.file, f.short, nme, f"bare reference to {nme.id}",
+                                  f"`{norm(pr, 60)}` passes {nme.id} as a bare callable: the recursive calls receive no "
+                                  f"`options`, so nested levels fall back to the default options")
+    ctx.floor(f"{rule}-rec", n_rec, 3, "recursive build calls")
+
+
 def r10a(ctx):
     m = ctx.model
     ctx.rule("R10a", "option plumbing: every document list constructed by a loader/builder receives allow_list_edits and "
@@ -67,29 +107,6 @@ def r10a(ctx):
                 else:
                     ctx.proved("R10a", f.file, f.short, c, f"{short}(...) list options",
                                "both list options are taken from the options object")
-            # recursion keeps the options
-            callee = r[0][1] if r and r[0] and r[0][0] == "func" else None
-            if callee == bq or (callee and callee.endswith(".build_tree") and callee in BUILDERS and callee != bq and "options" in params):
-                n_rec += 1
-                has = any(k.arg == "options" for k in c.keywords) or any(
-                    isinstance(a, ast.Name) and a.id == "options" for a in c.args)
-                if has:
-                    ctx.proved("R10a", f.file, f.short, c, f"recursive {callee.rsplit('.', 1)[-1]} keeps options",
-                               "the options object is passed to the recursive build call")
-                else:
-                    ctx.violation("R10a", f.file, f.short, c, f"recursive {callee.rsplit('.', 1)[-1]} keeps options",
-                                  f"`{norm(c, 60)}` builds a sub-tree without passing `options`: below this level the "
-                                  f"default options apply (key edits and list edits are allowed again)")
-        # a builder function passed as a bare callable (map(build_tree, xs)) also drops the options
-        for nme in walk_no_nested(f.node):
-            if isinstance(nme, ast.Name) and isinstance(nme.ctx, ast.Load) and not isinstance(parent(nme), ast.Call) or \
-                    (isinstance(nme, ast.Name) and isinstance(parent(nme), ast.Call) and nme in parent(nme).args):
-                r = m.resolve_expr(f.module, nme) if isinstance(nme, ast.Name) else None
-                if r and r[0] and r[0][0] == "func" and r[0][1] == bq and "options" in params:
-                    n_rec += 1
-                    ctx.violation("R10a", f.file, f.short, nme, f"bare reference to {nme.id}",
-                                  f"`{norm(parent(nme), 60)}` passes {nme.id} as a bare callable: the recursive calls "
-                                  f"receive no `options`, so nested levels fall back to the default options")
         # mapping selection
         sel = [i for i in walk_no_nested(f.node) if isinstance(i, ast.If) and (
             opts_expr(i.test, "allow_key_edits") or (isinstance(i.test, ast.Name) and i.test.id == "allow_key_edits"))]
@@ -115,7 +132,7 @@ def r10a(ctx):
                 ctx.violation("R10a", f.file, f.short, i, "mapping selection", f"{f.short}: " + "; ".join(why))
     ctx.floor("R10a-lists", n_list, 3, "document list constructions in builders")
     ctx.floor("R10a-maps", n_map, 3, "mapping selections in builders")
-    ctx.floor("R10a-rec", n_rec, 3, "recursive build calls")
+    recursive_options(ctx, "R10a")
     # mapping classes set allow_key_edits on their pairs
     for cq, want in (("DictNode", True), ("FixedKeyDictNode", False)):
         q = m.need_class(cq)
